@@ -541,6 +541,8 @@ def generate(h: Harness, env: dict[str, Any], seq: tuple[str, ...], align: bool,
         cs = h.cs_objects[pointer] = Sym(f"cs:{pointer}", {"endian": "<", "pointer": types[pointer], "uint8": types["u8"], "__dict__": {}}, {"resolve": Host(lambda t: t)})
         cs.strict = True
     cs.attrs["align"] = align
+    for t_ in types.values():
+        t_.attrs["cs"] = cs  # every type belongs to the cstruct object
     structure = Sym("S", {"__fields__": fields, "fields": {f.attrs["name"]: f for f in fields}, "__align__": align, "alignment": alignment, "size": size, "cs": cs,
                           "__name__": "S", "__compiled__": False, "__model__": {"tags": {"BaseType", "Structure"}, "size": size, "meta": "StructureMetaType", "kind": "S"},
                           "dynamic": size is None})
@@ -583,6 +585,8 @@ def run_compiled(h: Harness, fn: Sym, seq: tuple[str, ...], align: bool, start: 
         else:
             globs[k_] = v
     cs = Sym("cs", {"endian": endian, "pointer": types[pointer], "uint8": types["u8"]}, {"resolve": Host(lambda t: t)})
+    for t_ in [*types.values(), *[v for v in globs.values() if isinstance(v, Sym) and v.label.startswith("type:")]]:
+        t_.attrs["cs"] = cs
     ks = [table[n] for n in seq]
     cls = Sym("S", {"alignment": case.alignment, "size": case.size, "cs": cs, "__align__": align, "__name__": "S"})
 
